@@ -13,7 +13,7 @@ variable {u : Text → Text}
 /-- a pass takes trees with the invariant of phase `ph` to trees with the invariant of phase `ph'` -/
 def PassInv (u : Text → Text) (ph ph' : Ph) (p : Pass) : Prop :=
   ∀ fuel c L L', p fuel c L = .ok L' → KidsInv u ph c L → ListInv u ph L →
-    KidsInv u ph' c L' ∧ ListInv u ph' L' ∧ (hasNW L = true → hasNW L' = true)
+    KidsInv u ph' c L' ∧ ListInv u ph' L' ∧ (∀ P : Node → Bool, GoodP P → L.any P = true → L'.any P = true)
 
 theorem mapGroups_eltRel {elig : Node → Bool} {f : Cls → List Node → Except PyErr (List Node)} :
     ∀ (a r : List Node), mapGroups elig f a = .ok r → EltRel (fun c k k' => f c k = .ok k') a r := by
@@ -100,18 +100,22 @@ theorem mapGroupsWhere_eltRel {f : Cls → List Node → Except PyErr (List Node
             subst h
             exact .same (ih _ _ hr)
 
-theorem eltMap_hasNW {a b : List Node} (h : EltMap a b) (ha : hasNW a = true) : hasNW b = true := by
+theorem eltMap_anyP {P : Node → Bool} (hP : GoodP P) {a b : List Node} (h : EltMap a b) (ha : a.any P = true) :
+    b.any P = true := by
   induction h with
   | nil => exact ha
   | cons hx _ ih =>
-    simp only [hasNW, List.any_cons, Bool.or_eq_true] at ha ⊢
+    simp only [List.any_cons, Bool.or_eq_true] at ha ⊢
     rcases ha with ha | ha
-    · left; rw [sameTop_ws hx]; exact ha
+    · left
+      rcases hx with rfl | ⟨c, k, k', rfl, rfl⟩
+      · exact ha
+      · exact hP.grp _ rfl
     · right; exact ih ha
 
 theorem eltRel_listInv {S : Cls → List Node → List Node → Prop} {ph ph' : Ph} (hle : ph.le ph' = true)
     (hS : ∀ c k k', S c k k' → KidsInv u ph c k → ListInv u ph k →
-      KidsInv u ph' c k' ∧ ListInv u ph' k' ∧ (hasNW k = true → hasNW k' = true))
+      KidsInv u ph' c k' ∧ ListInv u ph' k' ∧ (∀ P : Node → Bool, GoodP P → k.any P = true → k'.any P = true))
     {a b : List Node} (h : EltRel S a b) (hi : ListInv u ph a) : ListInv u ph' b := by
   induction h with
   | nil => simp [ListInv]
@@ -121,14 +125,14 @@ theorem eltRel_listInv {S : Cls → List Node → List Node → Prop} {ph ph' : 
   | sub hs _ ih =>
     simp only [ListInv] at hi ⊢
     rw [nodeInv_grp] at hi ⊢
-    obtain ⟨h1, h2, h3⟩ := hS _ _ _ hs hi.1.1 hi.1.2.2
-    exact ⟨⟨h1, h3 hi.1.2.1, h2⟩, ih hi.2⟩
+    obtain ⟨h1, h2, h3⟩ := hS _ _ _ hs hi.1.1 hi.1.2.2.2
+    exact ⟨⟨h1, h3 _ goodP_nw hi.1.2.1, fun hc => h3 _ goodP_il (hi.1.2.2.1 hc), h2⟩, ih hi.2⟩
 
 /-! ### the loop passes with their `@recurse(...)` decorator -/
 /-- the body of a loop pass, run on a list whose children already have the invariant of the new phase -/
 def BodyOK (u : Text → Text) (ph ph' : Ph) (body : Cls → List Node → Except PyErr (List Node)) : Prop :=
   ∀ c L L', body c L = .ok L' → KidsInv u ph c L → ListInv u ph' L →
-    KidsInv u ph' c L' ∧ ListInv u ph' L' ∧ (hasNW L = true → hasNW L' = true)
+    KidsInv u ph' c L' ∧ ListInv u ph' L' ∧ (∀ P : Node → Bool, GoodP P → L.any P = true → L'.any P = true)
 
 theorem recursePass_inv {ph ph' : Ph} (hle : ph.le ph' = true) {skip : List Cls} {body}
     (hb : BodyOK u ph ph' body) : PassInv u ph ph' (recursePass skip body) := by
@@ -145,7 +149,7 @@ theorem recursePass_inv {ph ph' : Ph} (hle : ph.le ph' = true) {skip : List Cls}
       have hrel := mapGroups_eltRel _ _ hm
       have hi1 : ListInv u ph' L1 := eltRel_listInv hle (fun c k k' hs => ih c k k' hs) hrel hi
       obtain ⟨h1, h2, h3⟩ := hb c L1 L' h (kidsInv_eltMap hrel.eltMap hk) hi1
-      exact ⟨h1, h2, fun hn => h3 (eltMap_hasNW hrel.eltMap hn)⟩
+      exact ⟨h1, h2, fun P hP hn => h3 P hP (eltMap_anyP hP hrel.eltMap hn)⟩
 
 theorem adHocPass_inv {ph ph' : Ph} (hle : ph.le ph' = true) (skip : Option (List Cls)) {body}
     (hb : BodyOK u ph ph' body) : PassInv u ph ph' (adHocPass skip body) := by
@@ -173,13 +177,14 @@ theorem drvLoop_recurse (cfg : DrvCfg) : ∀ (snap : List Node) (idx : Nat) (st 
 theorem drv_bodyOK (hu : DelimU u) {cfg : DrvCfg} (hc : CfgD u cfg) {ph : Ph} (hph : ph.needWhere = false)
     {c : Cls} {L : List Node} {st : DrvSt} (h : drvLoop cfg L 0 (drvInit L) = .ok st)
     (hk : KidsInv u ph c L) (hi : ListInv u ph L) :
-    KidsInv u ph c st.cur ∧ ListInv u ph st.cur ∧ (hasNW L = true → hasNW st.cur = true) :=
-  ⟨fun mo mc ht => drvLoop_frame hu hc hph h (hk mo mc ht), drvLoop_listInv hc h hi, (drvLoop_ops0 hc h).hasNW⟩
+    KidsInv u ph c st.cur ∧ ListInv u ph st.cur ∧ (∀ P : Node → Bool, GoodP P → L.any P = true → st.cur.any P = true) :=
+  ⟨fun mo mc ht => drvLoop_frame hu hc hph h (hk mo mc ht), drvLoop_listInv hc h hi,
+    fun _ hP => (drvLoop_ops0 hc h).anyP hP⟩
 
 theorem groupDriver_inv (hu : DelimU u) {cfg : DrvCfg} (hc : CfgD u cfg) {ph : Ph} (hph : ph.needWhere = false) :
     ∀ (fuel : Nat) (rec : Bool) (c : Cls) (L L' : List Node), groupDriver { cfg with recurse := rec } fuel L = .ok L' →
       KidsInv u ph c L → ListInv u ph L →
-      KidsInv u ph c L' ∧ ListInv u ph L' ∧ (hasNW L = true → hasNW L' = true) := by
+      KidsInv u ph c L' ∧ ListInv u ph L' ∧ (∀ P : Node → Bool, GoodP P → L.any P = true → L'.any P = true) := by
   intro fuel
   induction fuel with
   | zero => intro rec c L L' h; simp [groupDriver] at h
@@ -220,7 +225,7 @@ theorem groupDriver_inv (hu : DelimU u) {cfg : DrvCfg} (hc : CfgD u cfg) {ph : P
             have hi1 : ListInv u ph L1 :=
               eltRel_listInv (Ph.le_refl ph) (fun c k k' hs => ih true c k k' hs) hrel hi
             obtain ⟨h1, h2, h3⟩ := drv_bodyOK hu hc hph hlp (kidsInv_eltMap hrel.eltMap hk) hi1
-            exact ⟨h1, h2, fun hn => h3 (eltMap_hasNW hrel.eltMap hn)⟩
+            exact ⟨h1, h2, fun P hP hn => h3 P hP (eltMap_anyP hP hrel.eltMap hn)⟩
     · rw [hloop] at h
       cases hlp : drvLoop cfg L 0 (drvInit L) with
       | error e => simp [hlp] at h
@@ -244,7 +249,7 @@ theorem typedLiteralPass_inv (hu : DelimU u) {ph : Ph} (hph : ph.needWhere = fal
     simp only [h1] at h
     obtain ⟨hk1, hi1, hn1⟩ := driverPass_inv hu (cfgD_typedLiteral0 hu) hph fuel c L L1 h1 hk hi
     obtain ⟨hk2, hi2, hn2⟩ := driverPass_inv hu (cfgD_typedLiteral1 hu) hph fuel c L1 L' h hk1 hi1
-    exact ⟨hk2, hi2, fun hn => hn2 (hn1 hn)⟩
+    exact ⟨hk2, hi2, fun P hP hn => hn2 P hP (hn1 P hP hn)⟩
 
 end DC
 end Sql
